@@ -35,8 +35,8 @@ def h_online(f, N, ext=True, kind='combined', itext=None, period=None):
 
     def body(env):
         A = env.A
-        son = dt.make_spec(kind, 'out = ' + (itext or text(f)), vs, period=period)
-        soff = dt.make_spec('offline~', 'out = ' + (itext or text(f)), vs, period=period)
+        son = dt.make_spec(kind, 'out = ' + (itext or text(f)), vs, period=period, f=f)
+        soff = dt.make_spec('offline~', 'out = ' + (itext or text(f)), vs, period=period, f=f)
         w = dt.trace(env, vs, N, ext=ext and not uf)
         if uf:
             for v in vs:
@@ -224,6 +224,10 @@ def obligations(tier, rng):
     for itext, f in near:
         for N in ([7] if quick else [5, 9]):
             out.append(ob('C02', 'online', 'Fnear/%s/N=%d' % (itext, N), f=f, N=N, ext=False, itext=itext, period=[500, 'ms']))
+    from .. import pool
+    for i, g in enumerate(pool.PAST):
+        for N in ([7] if quick else [4, 9]):
+            out.append(ob('C02', 'online', 'pool/%s/P=%s/unit=%s/N=%d' % (g[1], g[3] or '-', g[4] or '-', N), f=g, N=N, ext=False, kind='online' if i % 2 else 'combined'))
     for i in range(40 if quick else 500):
         f = refsem.gen_formula(rng, rng.choice([3, 4]), nodiv, [(0, 1), (1, 2), (0, 2)], ('x', 'y'))
         N = rng.choice([3, 5, 6])
